@@ -59,7 +59,29 @@ for p in sorted(os.listdir('canaries')):
     n = len(glob.glob(f'canaries/{p}/*.patch')); ctot += n
     crow.append(f'{p}: {n}')
 can = f'{ctot} canary patches — ' + ', '.join(crow) + '.'
+# REFS
+rrows = []
+nref = nfirst = nnow = 0
+for d in sorted(glob.glob('refactorings/C*-r*/'), key=lambda s: (s.split('/')[1].split('-')[0], int(s.split('-r')[1].strip('/')))):
+    m = json.load(open(d + 'meta.json'))
+    rid = m.get('ref_id', d.split('/')[1])
+    fa = m.get('alarms_first_run', m.get('alarms', []))
+    na = m.get('alarms', [])
+    nref += 1
+    if fa: nfirst += 1
+    if na: nnow += 1
+    summ = (m.get('summary') or '').replace('|', '/').replace('\n', ' ')
+    if len(summ) > 140: summ = summ[:137] + '…'
+    def short(a):
+        return ', '.join(sorted({' '.join(x.split(' ')[1:3]).split(':')[0] + ':' + (' '.join(x.split(' ')[1:3]).split(':') + [''])[1] for x in a})) if a else '—'
+    rrows.append(f"| {rid} | {m.get('kind','')} | {summ} | {short(fa)} | {'**' + short(na) + '**' if na else 'silent'} |")
+refs = '| id | kind | change (agent\'s summary) | alarms at first run (all false) | now |\n|---|---|---|---|---|\n' + '\n'.join(rrows)
+refs += f'\n\n{nref} behaviour-preserving refactorings; {nfirst} raised at least one alarm at the first run; {nnow} still do.'
 t = open('DESIGN.md').read()
+if '<!-- REFS:BEGIN -->' in t:
+    t = region(t, 'REFS', refs)
+    open('DESIGN.md', 'w').write(t)
+    t = open('DESIGN.md').read()
 t = region(t, 'FIXED', fixed); t = region(t, 'SEEDS', seeds); t = region(t, 'CANARIES', can)
 open('DESIGN.md', 'w').write(t)
 print(f'fixed {len(rows)}, seeds {tot} (first {first}, now {now}), canaries {ctot}')
